@@ -457,6 +457,109 @@ pub fn run_free(args: &[String]) -> i32 {
     0
 }
 
+/// A reply that arrives in two pieces with a pause longer than the receiver's read timeout in between.  The second piece is,
+/// byte for byte, a well-formed frame addressed to the OTHER outstanding call (it is the content of the binary the first call
+/// is being sent): a receiver that gave up on the read but went on reading would hand the first call's data to the second.
+/// rpc-stall <pause-ms> <out.ndjson>
+pub fn run_stall(args: &[String]) -> i32 {
+    let pause: u64 = args[0].parse().unwrap_or(11_500);
+    let rt = tokio::runtime::Builder::new_multi_thread().worker_threads(4).enable_all().build().expect("rt");
+    let mut w = NdWriter::create(&args[1]);
+    rt.block_on(async {
+        let listener = TcpListener::bind("127.0.0.1:0").await.expect("bind");
+        let (epmd_port, _epmd) = fake_epmd(listener.local_addr().unwrap().port()).await;
+        verif::set_epmd_port(epmd_port);
+        let mut node = Node::new(NODE, COOKIE);
+        if node.start(0).await.is_err() {
+            w.put(&json!({"tool_error": "node start"}));
+            return;
+        }
+        let node = Arc::new(node);
+        let Some(mut peer) = connect_peer(&node, &listener).await else {
+            w.put(&json!({"tool_error": "connect"}));
+            return;
+        };
+        let call_timeout = Duration::from_millis(pause + 5_000);
+        let from_pid = |f: &Vec<u8>| -> Option<ExternalPid> {
+            erltf::decoder::decode_with_trailing(&f[1..]).ok().map(|(t, _)| t).and_then(|t| match t {
+                OwnedTerm::Tuple(e) if e.len() == 4 => match &e[1] {
+                    OwnedTerm::Pid(p) => Some(p.clone()),
+                    _ => None,
+                },
+                _ => None,
+            })
+        };
+        let mut calls = Vec::new();
+        let mut pids = Vec::new();
+        for fun in ["a", "b"] {
+            let n = node.clone();
+            calls.push(tokio::spawn(async move { n.rpc_call_raw_with_timeout(PEER, "m", fun, vec![], call_timeout).await.map_err(|e| format!("{e:?}")) }));
+            let want = pids.len() + 1;
+            let t0 = std::time::Instant::now();
+            while peer.frames.lock().unwrap().len() < want && t0.elapsed() < Duration::from_secs(2) {
+                tokio::time::sleep(Duration::from_millis(2)).await;
+            }
+            let p = peer.frames.lock().unwrap().get(want - 1).and_then(from_pid);
+            match p {
+                Some(p) => pids.push(p),
+                None => {
+                    w.put(&json!({"tool_error": "rpc request not seen by the peer"}));
+                    return;
+                }
+            }
+        }
+        let rex = |v: OwnedTerm| OwnedTerm::Tuple(vec![OwnedTerm::Atom(Atom::new("rex")), v]);
+        let ctl = |p: &ExternalPid| OwnedTerm::Tuple(vec![OwnedTerm::Integer(2), OwnedTerm::Atom(Atom::new("")), OwnedTerm::Pid(p.clone())]);
+        let for_a_only = OwnedTerm::Binary(b"PART-OF-THE-REPLY-TO-CALL-A".to_vec());
+        let inner = pass_through(&ctl(&pids[1]), Some(&rex(for_a_only)));
+        let mut content = (inner.len() as u32).to_be_bytes().to_vec();
+        content.extend_from_slice(&inner);
+        let frame_a = pass_through(&ctl(&pids[0]), Some(&rex(OwnedTerm::Binary(content.clone()))));
+        let genuine_b = pass_through(&ctl(&pids[1]), Some(&rex(OwnedTerm::Binary(b"REPLY-TO-CALL-B".to_vec()))));
+        {
+            use tokio::io::AsyncWriteExt;
+            let cut = frame_a.len() - content.len();
+            let mut first = (frame_a.len() as u32).to_be_bytes().to_vec();
+            first.extend_from_slice(&frame_a[..cut]);
+            let _ = peer.wr.write_all(&first).await;
+            let _ = peer.wr.flush().await;
+            tokio::time::sleep(Duration::from_millis(pause)).await;
+            let _ = peer.wr.write_all(&frame_a[cut..]).await;
+            let _ = peer.wr.flush().await;
+            let _ = write_dist_frame(&mut peer.wr, &genuine_b).await;
+        }
+        let mut results = Vec::new();
+        for (i, h) in calls.into_iter().enumerate() {
+            let r = match tokio::time::timeout(call_timeout + Duration::from_secs(3), h).await {
+                Err(_) => json!({"kind": "still_running"}),
+                Ok(Err(e)) => json!({"kind": "panic", "detail": format!("{e}")}),
+                Ok(Ok(Ok(t))) => {
+                    let bin = match &t {
+                        OwnedTerm::Tuple(e) if e.len() == 2 => match &e[1] {
+                            OwnedTerm::Binary(b) => Some(b.clone()),
+                            _ => None,
+                        },
+                        _ => None,
+                    };
+                    let what = match bin.as_deref() {
+                        Some(b) if b == &content[..] => "the whole reply to call a",
+                        Some(b) if b == b"PART-OF-THE-REPLY-TO-CALL-A" => "a part of the reply to call a",
+                        Some(b) if b == b"REPLY-TO-CALL-B" => "the reply to call b",
+                        _ => "something else",
+                    };
+                    json!({"kind": "ok", "got": what})
+                }
+                Ok(Ok(Err(e))) => json!({"kind": "error", "detail": e.chars().take(120).collect::<String>()}),
+            };
+            let name = if i == 0 { "a" } else { "b" };
+            results.push(json!({"call": name, "result": r}));
+        }
+        w.put(&json!({"pause_ms": pause, "results": results, "pending_after": node.verif_pending_rpcs(), "still_connected": node.connections().contains_key(PEER)}));
+    });
+    w.finish();
+    0
+}
+
 pub fn run(args: &[String]) -> i32 {
     // rpc-run <scenarios.ndjson> <out.ndjson>
     let scenarios = read_ndjson(&args[0]);
